@@ -109,6 +109,10 @@ func (interp *Interpreter) cfg(root *node, sc *scope, importPath, pkgName string
 			}
 
 		case defineStmt:
+			if n.anc.kind == constDecl {
+				// In a constant declaration, iota is the index of the constant specification.
+				sc.iota = childPos(n)
+			}
 			// Determine type of variables initialized at declaration, so it can be propagated.
 			if n.nleft+n.nright == len(n.child) {
 				// No type was specified on the left hand side, it will resolved at post-order.
@@ -863,11 +867,6 @@ func (interp *Interpreter) cfg(root *node, sc *scope, importPath, pkgName string
 					n.findex = notInFrame
 					if sym, _, ok := sc.lookup(dest.ident); ok {
 						sym.kind = constSym
-					}
-					if childPos(n) == len(n.anc.child)-1 {
-						sc.iota = 0
-					} else {
-						sc.iota++
 					}
 				}
 			}
